@@ -47,6 +47,7 @@ func (e *Enc) entryEnv() *evalEnv {
 	}
 	for _, p := range e.fn.Params {
 		env.names[p.Name()] = binding{e.val(p), p.Type()}
+		env.names[p.Name()+"0"] = binding{e.val(p), p.Type()}
 	}
 	for _, p := range e.fn.FreeVars {
 		env.names[p.Name()] = binding{e.val(p), p.Type()}
@@ -84,6 +85,7 @@ func (e *Enc) callEnv(callee *ssa.Function, sig *types.Signature, params []strin
 	for i, n := range params {
 		if i < len(args) {
 			env.names[n] = binding{args[i], argTypes[i]}
+			env.names[n+"0"] = binding{args[i], argTypes[i]}
 		}
 	}
 	env.names["A0"] = binding{Val{e.allocCounter(pre), "Int"}, nil}
@@ -324,6 +326,12 @@ func (e *Enc) eval(sx *Sx, env *evalEnv) tv {
 			}
 		}
 		return tv{Val{e.heapGet(env.heap, key, srt), "(Array Ref " + srt + ")"}, nil}
+	case "sblen":
+		x := e.eval(args[0], env)
+		return tv{Val{app("select", e.heapGet(env.heap, "$sb", "Int"), x.v.T), "Int"}, nil}
+	case "bigval":
+		x := e.eval(args[0], env)
+		return tv{Val{app("select", e.heapGet(env.heap, "$big", "Int"), x.v.T), "Int"}, nil}
 	case "held":
 		// ghost lock state: (held mu-owner) -> 0 none, 1 read, 2 write
 		x := e.eval(args[0], env)
@@ -522,6 +530,29 @@ func (e *Enc) evalSpec(name string, args []*Sx, env *evalEnv) tv {
 		e.unsupp("contract of %s: unknown spec function %s", env.owner, name)
 		return tv{Val{"true", "Bool"}, nil}
 	}
+	if len(args) != len(sf.Params) {
+		e.unsupp("spec %s: %d arguments, want %d", name, len(args), len(sf.Params))
+		return tv{Val{"true", "Bool"}, nil}
+	}
+	if sf.Def != nil {
+		// defined spec functions are expanded in place (macro): their heap reads then see the caller's frames
+		n := *env
+		n.names = map[string]binding{}
+		for k, b := range env.names {
+			n.names[k] = b
+		}
+		for i, p := range sf.Params {
+			a := e.eval(args[i], env)
+			_, gt := e.specParamType(p.Sort)
+			if gt == nil {
+				gt = a.t
+			}
+			n.names[p.Name] = binding{a.v, gt}
+		}
+		n.owner = "spec " + name
+		r := e.eval(sf.Def, &n)
+		return tv{Val{r.v.T, sf.Ret}, nil}
+	}
 	e.useSpec(sf)
 	var ts []string
 	for _, k := range sf.Reads {
@@ -530,9 +561,6 @@ func (e *Enc) evalSpec(name string, args []*Sx, env *evalEnv) tv {
 	}
 	for _, a := range args {
 		ts = append(ts, e.eval(a, env).v.T)
-	}
-	if len(args) != len(sf.Params) {
-		e.unsupp("spec %s: %d arguments, want %d", name, len(args), len(sf.Params))
 	}
 	return tv{Val{app("spec_"+name, ts...), sf.Ret}, nil}
 }
